@@ -98,14 +98,14 @@ class C18(Config):
     corr_targets = ["C18/Corr.vo", "C18/Wf.vo"]
     audit_dirs = ["Lib", "Gen", "C18"]
     header = ("From V.Lib Require Import Base.\n"
-              "From V.C18 Require Import Model Spec Corr Wf.\n"
+              "From V.C18 Require Import Model Spec Store Corr Wf.\n"
               "Local Open Scope Z_scope.")
     bin = "c18"
     release_too = False
-    n_tags = 84           # 42 path tags x {pure, persisted}; 44/46 (shift + Reevaluate/Complete) and 1 (no-op, pure) are unreachable
+    n_tags = 98           # 49 path tags x {pure, persisted}; 44/46 (shift + Reevaluate/Complete) and 1 (no-op, pure) are unreachable
     shard_size = 400
     classes = {}          # both classes were repaired in /repo (known_findings.d/C18.json, kind "fixed")
-    rule = ("one case per executed public API call on a MigrationState (store_proved_transaction, apply_signature, "
+    rule = ("one case per executed public API call on a MigrationState (store_proved_transaction, apply_signature, rebuild_expired_transfer[_unsigned], "
             "advance_migration against a scripted store oracle, mark_broadcast, mark_mined, truncate_to_height, "
             "report_broadcast_failure, record_satisfiability, mark_cancelled, mark_superseded, recompute_status) inside "
             "event sequences over generated states (crate proptest strategies re-keyed + own DAG generator); each line "
@@ -120,16 +120,14 @@ class C18(Config):
         "coq/C18/Store.v is a row-level model of store.rs written by reading; it is tied to the code only through the SQLite verdicts of the persistence stream (replace_migration / latest_migration / get_migration / list_migrations on a real wallet database at every step)",
     ]
     assumptions = [
-        "transaction ids unique within a migration (the store keys rows by id)",
-        "anchor boundaries below 2^32-11 (prove_ready / overdue test use plain u32 addition)",
+        "transaction ids unique within a migration (the store keys rows by id; with duplicate ids the code's drive loop itself need not terminate)",
+        "served targets fit u32 (they are BlockHeights)",
         "the store oracle is a pure function of the queried transaction row within one advance_migration call",
-        "drive-loop termination is not proved: theorems about advance hold for every call that returns (model fuel 4n+8; every generated call returned within it)",
+        "rebuild: the wallet/crypto half of rebuild_expired_transfer (funding note, anchor draw, PCZT build, signing) is an oracle bit plus the observed new schedule / anchor / txid",
     ]
     partial_clauses = [
-        "termination of the advance_migration drive loop is not proved (fuelled model; every theorem about advance is for calls that return)",
-        "no-silent-stranding at the drive API is proved for stores that never answer NotYetSatisfiable within the call (a deferral makes Waiting the documented report); at the kernel it is unconditional",
-        "rebuild_expired_transfer (engine.rs), which replaces an expired transfer by a new Signed/AwaitingSignature transaction under the same id, is outside the modelled events",
-        "store_roundtrip is proved on the row model for the transaction and dependency tables; denomination / preparation-plan / nullifier / PCZT columns are covered by the SQLite round trips only",
+        "store_roundtrip is proved on the row model for the transaction and dependency tables; the model's save output is compared with plain SELECT dumps of the real tables at every persisted step; denomination / preparation-plan / nullifier / PCZT / lock-owner columns are covered by the SQLite load-back verdicts only",
+        "the fuel (64 draws) of the modelled anchor rejection sampler is not proved sufficient; it depends on the RNG script, which the harness builds to contain an accepted age (dead-set loop, durable closure loop and drive loop fuels are proved sufficient)",
     ]
 
     def harness_args(self, tier, seed, search=False):
